@@ -197,7 +197,7 @@ func VH_C11_DetachedArray() {
 // key with another container (inlined or standalone) or a plain value, or by
 // removing the key; the stale handle is then mutated with symbolic sizes.
 //
-//vh:prop C11
+//vh:prop C11 C09
 //vh:param ops 2 3
 func VH_C11_DetachedFromMap() {
 	vhSetThreshold(256)
@@ -342,6 +342,9 @@ func VH_C11_DetachedFromMap() {
 	if rerr == nil {
 		vhCheckArray(re, addr, cm, "detached child")
 	}
+	// C09 with the detached child counted as a root: nothing else remains
+	vhAssert(vhStorageSlabCount(storage.BasicSlabStorage) == vhMapSlabCount(storage, parent.SlabID())+vhArraySlabCount(storage, SlabID(sid)),
+		"storage holds exactly the former parent's and the detached child's slabs")
 	vhReach("detached-done")
 }
 
